@@ -275,9 +275,6 @@ func (eng *Engine) inferRenaming(fn *ssa.Function, modes Modes, spec map[string]
 			cands = append(cands, paramCand)
 		}
 	}
-	if len(cands) == 0 {
-		return nil
-	}
 	mapping := map[string]string{}
 	used := map[string]bool{}
 	// 1. anchors that are gone: a vanished identifier in the anchor, replaced by an unmentioned local, gives a line of the function
@@ -330,6 +327,49 @@ func (eng *Engine) inferRenaming(fn *ssa.Function, modes Modes, spec map[string]
 			}
 		}
 		return r
+	}
+	// 1b. anchors that are still gone: the one line of the function that resembles the anchor (statement split, merged
+	// or otherwise reshaped) takes its place
+	{
+		fz := map[string]string{}
+		for _, cut := range ct.Cuts {
+			a := cut.Anchor
+			for o, n := range mapping {
+				a = substIdent(a, o, n)
+			}
+			if strings.HasPrefix(a, "call:") || a == "go:" || lines[anchorText(a)] {
+				continue
+			}
+			if best := fuzzyLine(anchorText(a), lines); best != "" {
+				fz[cut.Anchor] = best
+			}
+		}
+		if len(fz) > 0 {
+			c2 := *ct
+			c2.Cuts = nil
+			for _, cut := range ct.Cuts {
+				n := *cut
+				if b, ok := fz[cut.Anchor]; ok {
+					n.Anchor = b
+					n.AnchorWas = cut.Anchor
+				}
+				c2.Cuts = append(c2.Cuts, &n)
+			}
+			ct = &c2
+			if len(mapping) == 0 {
+				r := eng.verifyFunctionWith(fn, modes, spec, ct)
+				if r != nil && r.Err == "" {
+					r.Renamed = fmt.Sprintf("anchors re-placed on resembling lines: %d", len(fz))
+					return r
+				}
+				if r != nil {
+					firstErr = r.Err
+				}
+			}
+		}
+	}
+	if len(cands) == 0 && len(mapping) == 0 {
+		return nil
 	}
 	errNow := firstErr
 	if len(mapping) > 0 {
@@ -476,4 +516,55 @@ func renameInterface(ct *Contract, m map[string]string) (*Contract, error) {
 	}
 	c2.Retains = rt
 	return &c2, err
+}
+
+var tokenRe = regexp.MustCompile(`[A-Za-z_][A-Za-z0-9_]*|[0-9]+|[^\sA-Za-z0-9_]`)
+
+// fuzzyLine: the line among lines that resembles text (token-wise longest common subsequence, at least 60% and clearly
+// better than the runner-up), or ""
+func fuzzyLine(text string, lines map[string]bool) string {
+	ta := tokenRe.FindAllString(text, -1)
+	if len(ta) < 3 {
+		return ""
+	}
+	best, second := 0.0, 0.0
+	bestLine := ""
+	var keys []string
+	for l := range lines {
+		keys = append(keys, l)
+	}
+	sort.Strings(keys)
+	for _, l := range keys {
+		tb := tokenRe.FindAllString(l, -1)
+		if len(tb) == 0 {
+			continue
+		}
+		// LCS
+		prev := make([]int, len(tb)+1)
+		for i := 1; i <= len(ta); i++ {
+			cur := make([]int, len(tb)+1)
+			for j := 1; j <= len(tb); j++ {
+				if ta[i-1] == tb[j-1] {
+					cur[j] = prev[j-1] + 1
+				} else if prev[j] >= cur[j-1] {
+					cur[j] = prev[j]
+				} else {
+					cur[j] = cur[j-1]
+				}
+			}
+			prev = cur
+		}
+		sim := 2 * float64(prev[len(tb)]) / float64(len(ta)+len(tb))
+		if sim > best {
+			second = best
+			best = sim
+			bestLine = l
+		} else if sim > second {
+			second = sim
+		}
+	}
+	if best >= 0.6 && best-second >= 0.1 {
+		return bestLine
+	}
+	return ""
 }
